@@ -132,6 +132,17 @@ Proof.
     destruct (IH l' r H) as [k Hk]. exists (S k). cbn [Pk]. rewrite (pass_agrees l l' Es). exact Hk.
 Qed.
 
+(* ... at most as many as the reference's loop has rounds *)
+Lemma subst_all_passes_bound : forall f l r, subst_all f cf ev ls i l = Some r ->
+  exists k, (k < f)%nat /\ Pk raw labtab se m i k (map tau l) = Some (map inj r).
+Proof.
+  induction f as [|f IH]; intros l r H; [discriminate|]. cbn [subst_all] in H. fold (all_te l) in H. fold (strip l) in H.
+  destruct (all_te l) eqn:Ea.
+  - inversion H; subst. exists 0%nat. split; [lia|]. cbn [Pk]. rewrite (all_te_tau l Ea). reflexivity.
+  - rewrite subst_pass_spe in H. destruct (spe_all l) as [l'|] eqn:Es; [|discriminate].
+    destruct (IH l' r H) as [k [Hk1 Hk]]. exists (S k). split; [lia|]. cbn [Pk]. rewrite (pass_agrees l l' Es). exact Hk.
+Qed.
+
 (* number tokens stay non-negative *)
 Definition nn_ntok (t : ntok) : Prop := match t with TE (ENum n) => 0 <= n | _ => True end.
 Definition env_nn : Prop := forall id d, env_find id ev = Some d -> Forall nn_ntok (nprint d).
@@ -159,6 +170,19 @@ Proof.
     destruct t as [e|id]; cbn [flat_map app]; [constructor; [destruct e; exact Hx || exact I|apply IHl; exact Hy]|apply IHl; exact Hy].
   - rewrite subst_pass_spe in H. destruct (spe_all l) as [l'|] eqn:Es; [|discriminate].
     apply (IH l' r (spe_all_nn l l' Hn Es) H).
+Qed.
+
+(* ---------- an expression expanded with the definitions as written (the way ;assert lines are evaluated) ---------- *)
+Theorem operand_raw f e v : Forall nn_ntok (nprint e) -> value_at cf ev ls i e = MV v -> (S (S (length ev)) <= f)%nat ->
+  exists x, expand_expression f m (mkC raw labtab se) i (etoks spell e) = Some (Some x) /\ evaluate_expression x = EOk v.
+Proof.
+  intros Hn H Hf. unfold value_at in H.
+  destruct (subst_all (S (S (length ev))) cf ev ls i (nprint e)) as [r|] eqn:Es; [|discriminate].
+  destruct (eval_tokens r) as [w|] eqn:Ew; [|discriminate]. destruct (in_int32 w) eqn:Ei; [|discriminate]. inversion H; subst w.
+  destruct (subst_all_passes_bound _ _ _ Es) as [k [Hk1 Hk]].
+  exists (map inj r). split.
+  - apply (raw_by_passes raw labtab se m i k (etoks spell e) (map inj r) f Hk (inj_not_text _)). lia.
+  - rewrite (evaluate_accepted r v (subst_all_nn _ _ _ Hn Es) Ew). rewrite <- in_int32_ok, Ei. reflexivity.
 Qed.
 
 (* ---------- an operand ---------- *)
@@ -265,7 +289,7 @@ Proof.
 Qed.
 
 (* ---------- programs of instructions and EQU definitions ---------- *)
-Definition item_plain (it : item) : Prop := match it with IInstr _ | IEqu _ _ => True | _ => False end.
+Definition item_plain (it : item) : Prop := match it with IFor _ _ _ _ => False | _ => True end.   (* no FOR block *)
 Fixpoint instrs (its : list item) : list Prog.iline :=
   match its with [] => [] | IInstr l :: t => l :: instrs t | _ :: t => instrs t end.
 Fixpoint equs (its : list item) : env :=
@@ -276,14 +300,16 @@ Lemma collect_plain : forall its a ev ls ins, Forall item_plain its ->
 Proof.
   induction its as [|it t IH]; intros a ev ls ins H; cbn [collect instrs equs lab_pairs length].
   - rewrite !app_nil_r, Z.add_0_r. reflexivity.
-  - inversion H as [|x y Hx Hy]; subst. destruct it as [l|n e| |]; try (destruct Hx; fail); cbn [collect instrs equs lab_pairs length].
+  - inversion H as [|x y Hx Hy]; subst. destruct it as [l|n e| |e]; try (destruct Hx; fail); cbn [collect instrs equs lab_pairs length].
     + rewrite (IH _ _ _ _ Hy). rewrite <- !app_assoc. cbn [app]. f_equal. lia.
     + rewrite (IH _ _ _ _ Hy). rewrite <- !app_assoc. reflexivity.
+    + apply (IH _ _ _ _ Hy).
 Qed.
-Lemma assertions_plain cf ev ls : forall its, Forall item_plain its -> assertions cf ev ls its = MOk [] 0.
+(* when the assertions let the program pass they say so with this value *)
+Lemma assertions_ok cf ev ls : forall its code s, assertions cf ev ls its = MOk code s -> assertions cf ev ls its = MOk [] 0.
 Proof.
-  induction its as [|it t IH]; intros H; [reflexivity|]. inversion H as [|x y Hx Hy]; subst.
-  destruct it; try (destruct Hx; fail); cbn [assertions]; apply IH; exact Hy.
+  induction its as [|it t IH]; intros code s H; [reflexivity|]. destruct it; cbn [assertions] in *; try (apply (IH _ _ H)).
+  destruct (value_at cf ev ls 0 e) as [v| |]; try discriminate. destruct (v =? 0); [discriminate|apply (IH _ _ H)].
 Qed.
 
 Section EquDocs.
@@ -313,7 +339,11 @@ Proof.
     + intros E. apply Hne. symmetry. apply Hinj; [left; reflexivity|right; left; reflexivity|exact E].
 Qed.
 
-(* documents: as in C03Compile, with EQU lines *)
+(* an ;assert line: the keyword, then a text that the lexer turns into the tokens of the condition *)
+Definition assert_comment (c : text) (e : nexpr) : Prop :=
+  has_prefix (s2t ";assert") c = true /\ lex_ascii (skipn 7 c) = Some (etoks spell e ++ [tEOF]) /\ Forall nn_ntok (nprint e).
+
+(* documents: as in C03Compile, with EQU lines and ;assert lines *)
 Inductive renders_doc2 : option nexpr -> list item -> list (lelem * nat) -> Prop :=
 | R2nil : renders_doc2 None [] []
 | R2instr org l its t k es : renders_line spell l t -> renders_doc2 org its es -> renders_doc2 org (IInstr l :: its) ((LInstr t, k) :: es)
@@ -322,7 +352,9 @@ Inductive renders_doc2 : option nexpr -> list item -> list (lelem * nat) -> Prop
     renders_doc2 (Some e) its ((LDir kw (etoks spell e) cmt, k) :: es)
 | R2equ org n e labs kw cmt k its es :
     lnames labs = [spell n] -> dir_kw_ok kw "equ" -> Forall nn_ntok (nprint e) -> renders_doc2 org its es ->
-    renders_doc2 org (IEqu n e :: its) ((LEqu labs kw (etoks spell e) cmt, k) :: es).
+    renders_doc2 org (IEqu n e :: its) ((LEqu labs kw (etoks spell e) cmt, k) :: es)
+| R2assert org c e k its es : assert_comment c e -> renders_doc2 org its es ->
+    renders_doc2 org (IAssert e :: its) ((LComment c, k) :: es).
 
 Lemma r2_plain org its es : renders_doc2 org its es -> Forall item_plain its.
 Proof. induction 1; try assumption; constructor; try exact I; assumption. Qed.
@@ -330,7 +362,7 @@ Proof. induction 1; try assumption; constructor; try exact I; assumption. Qed.
 Lemma r2_names org its es : renders_doc2 org its es ->
   Permutation.Permutation (dnames es) (map spell (flat_map il_labels (instrs its)) ++ map spell (map fst (equs its))).
 Proof.
-  induction 1 as [|org l its t k es [Hl _] _ IH|org c k its es _ _ IH|e kw cmt k its es _ _ _ IH|org n e labs kw cmt k its es Hl _ _ _ IH];
+  induction 1 as [|org l its t k es [Hl _] _ IH|org c k its es _ _ IH|e kw cmt k its es _ _ _ IH|org n e labs kw cmt k its es Hl _ _ _ IH|org c e k its es _ _ IH];
     cbn [dnames instrs equs flat_map map fst]; try exact IH.
   - constructor.
   - rewrite Hl, map_app, <- app_assoc. apply Permutation.Permutation_app_head. exact IH.
@@ -354,7 +386,7 @@ Lemma r2_symbols cfg org its es : renders_doc2 org its es ->
        (match org with Some e => etoks spell e | None => se end),
    cur + Z.of_nat (length (instrs its))).
 Proof.
-  induction 1 as [|org l its t k es [Hl _] _ IH|org c k its es _ _ IH|e kw cmt k its es Hkw _ _ IH|org n e labs kw cmt k its es Hl Hkw _ _ IH];
+  induction 1 as [|org l its t k es [Hl _] _ IH|org c k its es _ _ IH|e kw cmt k its es Hkw _ _ IH|org n e labs kw cmt k its es Hl Hkw _ _ IH|org c e k its es _ _ IH];
     intros C v tab se cur Hfresh Hnd; cbn [elines fold_left lab_pairs length instrs equs].
   - unfold set_all, equ_entries. cbn. rewrite Z.add_0_r, app_nil_r. reflexivity.
   - cbn [ls_step tline_sline sl_typ sl_labels sl_codeline c_values c_labels c_startexpr]. rewrite (IH _ _ _ _ _ Hfresh Hnd).
@@ -372,6 +404,7 @@ Proof.
       * apply (Hfresh n0 (or_intror Hn0) Hin).
       * cbn [fst] in Hin. apply Hx. rewrite Hin. apply in_map. exact Hn0.
     + exact Hy.
+  - cbn [ls_step comment_sline sl_typ]. apply IH; assumption.
 Qed.
 End EquDocs.
 
@@ -446,7 +479,7 @@ Lemma r2_assemble cfg ev ls raw res labtab se org its es : (0 < c_size cfg)%N ->
   meaning_code (mconf_of cfg) ev ls i (instrs its) acc = MOk code s ->
   assemble_all cfg (mkC res labtab se) (elines i es) acc = inr code.
 Proof.
-  intros Hm Hrd Henv Hres. induction Hrd as [|org l its t k es Hl _ IH|org cm k its es _ _ IH|e kw cmt k its es _ _ _ IH|org n e labs kw cmt k its es _ _ _ _ IH];
+  intros Hm Hrd Henv Hres. induction Hrd as [|org l its t k es Hl _ IH|org cm k its es _ _ IH|e kw cmt k its es _ _ _ IH|org n e labs kw cmt k its es _ _ _ _ IH|org cm e k its es _ _ IH];
     intros i acc code s Htab H; cbn [elines assemble_all instrs] in *.
   - cbn [meaning_code] in H. inversion H; subst. reflexivity.
   - cbn [meaning_code] in H. destruct (instr_meaning (mconf_of cfg) ev ls i l) as [x| |] eqn:Ei; try discriminate.
@@ -456,15 +489,62 @@ Proof.
   - cbn [comment_sline sl_typ]. apply (IH i acc code s Htab H).
   - cbn [dir_sline sl_typ]. apply (IH i acc code s Htab H).
   - cbn [ldir_sline sl_typ]. apply (IH i acc code s Htab H).
+  - cbn [comment_sline sl_typ]. apply (IH i acc code s Htab H).
 Qed.
 
-Lemma r2_assertions m c org its es : renders_doc2 spell org its es -> forall C, eval_assertions m c (elines C es) = Some (EOk 1).
+(* the ;assert lines: each is evaluated with the definitions as written, at line 0, and must not be zero - the reference
+   reads them the same way (Meaning.assertions) *)
+Lemma r2_assertions cfg ev ls raw labtab se org its es : renders_doc2 spell org its es ->
+  tables_ok spell (mconf_of cfg) ev ls raw labtab (Z.of_N (c_size cfg)) 0 -> env_nn ev -> (length ev <= length raw)%nat ->
+  assertions (mconf_of cfg) ev ls its = MOk [] 0 ->
+  forall C, exists v, eval_assertions (Z.of_N (c_size cfg)) (mkC raw labtab se) (elines C es) = Some (EOk v).
 Proof.
-  induction 1 as [|org l its t k es _ _ IH|org cm k its es Hc _ IH|e kw cmt k its es _ _ _ IH|org n e labs kw cmt k its es _ _ _ _ IH]; intros C; cbn [elines eval_assertions]; [reflexivity| | | |].
-  - cbn [tline_sline sl_typ]. apply IH.
-  - cbn [comment_sline sl_typ sl_comment]. unfold comment_plain in Hc. rewrite Hc. apply IH.
-  - cbn [dir_sline sl_typ]. apply IH.
-  - cbn [ldir_sline sl_typ]. apply IH.
+  intros Hrd Htab Henv Hlen.
+  induction Hrd as [|org l its t k es _ _ IH|org cm k its es Hc _ IH|e kw cmt k its es _ _ _ IH|org n e labs kw cmt k its es _ _ _ _ IH|org cm e k its es [Hp [Hlex Hnn]] _ IH];
+    intros Has C; cbn [elines eval_assertions assertions] in *; [exists 1; reflexivity| | | | |].
+  - cbn [tline_sline sl_typ]. apply (IH Has).
+  - cbn [comment_sline sl_typ sl_comment]. unfold comment_plain in Hc. rewrite Hc. apply (IH Has).
+  - cbn [dir_sline sl_typ]. apply (IH Has).
+  - cbn [ldir_sline sl_typ]. apply (IH Has).
+  - cbn [comment_sline sl_typ sl_comment]. rewrite Hp.
+    destruct (value_at (mconf_of cfg) ev ls 0 e) as [v| |] eqn:Ev; try discriminate.
+    destruct (v =? 0) eqn:Ez; [discriminate|].
+    destruct (operand_raw spell (mconf_of cfg) ev ls raw labtab se (Z.of_N (c_size cfg)) 0 Htab Henv
+                (expand_fuel (mkC raw labtab se)) e v Hnn Ev) as [x [X1 X2]].
+    { unfold expand_fuel. cbn [c_values]. lia. }
+    unfold eval_assert. rewrite Hlex, removelast_last, X1, X2, Ez. apply (IH Has).
+Qed.
+(* a condition that is zero: the first ;assert line whose value is 0, all before it being non-zero *)
+Fixpoint first_zero (cf : mconf) (ev : env) (ls : labels) (its : list item) : bool :=
+  match its with
+  | [] => false
+  | IAssert e :: t => match value_at cf ev ls 0 e with MV v => if v =? 0 then true else first_zero cf ev ls t | _ => false end
+  | _ :: t => first_zero cf ev ls t
+  end.
+Lemma first_zero_rejects cf ev ls : forall its, first_zero cf ev ls its = true -> assertions cf ev ls its = MReject.
+Proof.
+  induction its as [|it t IH]; intros H; [discriminate|]. destruct it; cbn [first_zero assertions] in *; try (apply IH; exact H).
+  destruct (value_at cf ev ls 0 e) as [v| |]; try discriminate. destruct (v =? 0); [reflexivity|apply IH; exact H].
+Qed.
+Lemma r2_assertions_zero cfg ev ls raw labtab se org its es : renders_doc2 spell org its es ->
+  tables_ok spell (mconf_of cfg) ev ls raw labtab (Z.of_N (c_size cfg)) 0 -> env_nn ev -> (length ev <= length raw)%nat ->
+  first_zero (mconf_of cfg) ev ls its = true ->
+  forall C, eval_assertions (Z.of_N (c_size cfg)) (mkC raw labtab se) (elines C es) = Some EErr.
+Proof.
+  intros Hrd Htab Henv Hlen.
+  induction Hrd as [|org l its t k es _ _ IH|org cm k its es Hc _ IH|e kw cmt k its es _ _ _ IH|org n e labs kw cmt k its es _ _ _ _ IH|org cm e k its es [Hp [Hlex Hnn]] _ IH];
+    intros Hz C; cbn [elines eval_assertions first_zero] in *; [discriminate| | | | |].
+  - cbn [tline_sline sl_typ]. apply (IH Hz).
+  - cbn [comment_sline sl_typ sl_comment]. unfold comment_plain in Hc. rewrite Hc. apply (IH Hz).
+  - cbn [dir_sline sl_typ]. apply (IH Hz).
+  - cbn [ldir_sline sl_typ]. apply (IH Hz).
+  - cbn [comment_sline sl_typ sl_comment]. rewrite Hp.
+    destruct (value_at (mconf_of cfg) ev ls 0 e) as [v| |] eqn:Ev; try discriminate.
+    destruct (operand_raw spell (mconf_of cfg) ev ls raw labtab se (Z.of_N (c_size cfg)) 0 Htab Henv
+                (expand_fuel (mkC raw labtab se)) e v Hnn Ev) as [x [X1 X2]].
+    { unfold expand_fuel. cbn [c_values]. lia. }
+    unfold eval_assert. rewrite Hlex, removelast_last, X1, X2.
+    destruct (v =? 0) eqn:Ez; [reflexivity|apply (IH Hz)].
 Qed.
 End EquLines.
 
@@ -606,8 +686,10 @@ Proof.
   set (ev := equs its) in *. set (ils := instrs its) in *. set (n := Z.of_nat (length ils)).
   unfold meaning in Hmean. cbn [pr_items pr_end_labels pr_org pr_end] in Hmean.
   rewrite (collect_plain its 0 [] [] [] Hplain) in Hmean. cbn [app map] in Hmean. rewrite app_nil_r in Hmean.
-  rewrite (assertions_plain _ _ _ its Hplain) in Hmean. fold ev ils in Hmean.
+  fold ev ils in Hmean.
   set (ls := lab_pairs 0 ils) in *.
+  destruct (assertions (mconf_of cfg) ev ls its) as [acode astart| |] eqn:Eas; try discriminate.
+  apply assertions_ok in Eas.
   destruct (meaning_code (mconf_of cfg) ev ls 0 ils []) as [code' s'| |] eqn:Emc; try discriminate.
   destruct (meaning_code_length _ _ _ _ _ _ _ _ Emc) as [Elen _]. cbn [length Nat.add] in Elen.
   destruct (mf_len (mconf_of cfg) <? Z.of_nat (length code')) eqn:El; [discriminate|].
@@ -631,7 +713,7 @@ Proof.
     intros x Hx. apply Hev_np. exact Hx. }
   assert (Henv : env_nn ev).
   { clear - Hrd. unfold ev. intros id d H. apply env_find_entry in H.
-    induction Hrd as [|org l its t k es _ _ IH|org c k its es _ _ IH|e kw cmt k its es _ _ _ IH|org n0 e0 labs kw cmt k its es _ _ Hnn _ IH]; cbn [equs] in H; try (apply IH; exact H); [destruct H|].
+    induction Hrd as [|org l its t k es _ _ IH|org c k its es _ _ IH|e kw cmt k its es _ _ _ IH|org n0 e0 labs kw cmt k its es _ _ Hnn _ IH|org c e1 k its es _ _ IH]; cbn [equs] in H; try (apply IH; exact H); [destruct H|].
     destruct H as [H|H]; [inversion H; subst; exact Hnn|apply IH; exact H]. }
   assert (Hac : graph_has_cycle (build_graph raw) = Some false) by (apply (graph_ranked cfg ev rkN Hev_inj Hev_np Hrk)).
   destruct (expand_expressions_succeeds raw Hac) as [res Hres].
@@ -640,14 +722,16 @@ Proof.
     pose proof (lab_pairs_range spell _ _ _ _ Ha) as Hr. fold n in Hr. lia. }
   rewrite <- compile_essential, Hess. unfold compile. rewrite Hv. cbn [negb]. rewrite Hsym.
   cbn [c_values c_labels c_startexpr]. rewrite Hac.
-  rewrite (r2_assertions spell _ _ org its es Hrd 0). rewrite Hres.
+  assert (Hlenraw : (length ev <= length raw)%nat) by (unfold raw, raw_table, equ_entries; rewrite app_length, map_length; lia).
+  destruct (r2_assertions spell cfg ev ls raw labt se org its es Hrd (Htabs 0 ltac:(lia) (or_intror eq_refl)) Henv Hlenraw Eas 0) as [asv Hasv].
+  rewrite Hasv. rewrite Hres.
   rewrite (r2_assemble spell cfg ev ls raw res labt se org its es Hm Hrd Henv Hres 0 [] code' s').
   - replace (c_len cfg <? N.of_nat (length code'))%N with false by lia.
     destruct org as [eo|].
     + (* ORG *)
       destruct (value_at (mconf_of cfg) ev ls 0 eo) as [v| |] eqn:Evo; try discriminate.
       assert (Hnn : Forall nn_ntok (nprint eo)).
-      { clear - Hrd. remember (Some eo) as o eqn:Eo. induction Hrd as [|org l its t k es _ _ IH|org c k its es _ _ IH|e kw cmt k its es _ Hn _ IH|org n0 e0 labs kw cmt k its es _ _ _ _ IH];
+      { clear - Hrd. remember (Some eo) as o eqn:Eo. induction Hrd as [|org l its t k es _ _ IH|org c k its es _ _ IH|e kw cmt k its es _ Hn _ IH|org n0 e0 labs kw cmt k its es _ _ _ _ IH|org c0 e1 k its es _ _ IH];
           try discriminate Eo; try (apply IH; exact Eo). inversion Eo; subst. exact Hn. }
       destruct (operand_equ spell (mconf_of cfg) ev ls raw labt se (Z.of_N (c_size cfg)) 0 (Htabs 0 ltac:(lia) (or_intror eq_refl)) Henv res Hres (length res) eo v Hnn Evo) as [xs [X1 X2]].
       unfold expand_fuel. cbn [c_values c_startexpr]. unfold se in *. rewrite X1, X2.
@@ -656,5 +740,52 @@ Proof.
       rewrite expand_expression_plain by (repeat constructor; cbn; discriminate). rewrite eval_num. reflexivity.
   - intros j Hj. apply Htabs; fold ils n in Hj; lia.
   - exact Emc.
+Qed.
+
+(* ... and a program with a condition that is zero is refused: the first ;assert line whose value is 0 (those before it
+   being non-zero) makes the compiler answer with an error, whatever else the program holds *)
+Theorem compile_program2_refused cfg org its es lines meta rkN :
+  validate cfg = true -> renders_doc2 spell org its es ->
+  spell_ok spell (flat_map il_labels (instrs its) ++ map fst (equs its)) ->
+  ranked (equs its) rkN ->
+  essential lines = elines 0 es ->
+  Z.of_nat (length (instrs its)) < Z.of_N (c_size cfg) ->
+  first_zero (mconf_of cfg) (equs its) (lab_pairs 0 (instrs its)) its = true ->
+  compile cfg lines meta = CErr.
+Proof.
+  intros Hv Hrd Hsp Hrk Hess Hshort Hz.
+  set (ev := equs its) in *. set (ils := instrs its) in *. set (n := Z.of_nat (length ils)) in *.
+  set (ls := lab_pairs 0 ils) in *.
+  destruct Hsp as [Hpre Hlab Hinj Hnd Hword].
+  assert (Hsp' : spell_ok spell (map fst ls ++ map fst ev)).
+  { unfold ls. rewrite lab_pairs_keys. constructor; assumption. }
+  assert (Hev_inj : forall a b, In a (map fst ev) -> In b (map fst ev) -> spell a = spell b -> a = b)
+    by (intros a b Ha Hb; apply Hinj; apply in_or_app; right; assumption).
+  assert (Hev_np : forall x, In x (map fst ev) -> ~ In (spell x) predefined)
+    by (intros x Hx; apply (Hlab x); apply in_or_app; right; exact Hx).
+  assert (Hev_nd : NoDup (map spell (map fst ev))).
+  { apply NoDup_map_spell; [|exact Hev_inj]. clear - Hnd. induction (flat_map il_labels ils) as [|a l IH]; [exact Hnd|]. cbn [app] in Hnd. inversion Hnd; subst. apply IH. assumption. }
+  (* the symbol tables *)
+  set (raw := raw_table spell cfg ev).
+  set (labt := set_all (spell_pairs spell ls) []).
+  set (se := match org with Some e => etoks spell e | None => [num_tok 0] end).
+  assert (Hsym : load_symbols cfg (elines 0 es) = mkC raw labt se).
+  { rewrite load_symbols_fold.
+    rewrite (r2_symbols spell cfg org its es Hrd 0 (load_constants cfg) [] [num_tok 0] 0); [reflexivity| |exact Hev_nd].
+    intros x Hx. apply Hev_np. exact Hx. }
+  assert (Henv : env_nn ev).
+  { clear - Hrd. unfold ev. intros id d H. apply env_find_entry in H.
+    induction Hrd as [|org l its t k es _ _ IH|org c k its es _ _ IH|e kw cmt k its es _ _ _ IH|org n0 e0 labs kw cmt k its es _ _ Hnn _ IH|org c e1 k its es _ _ IH]; cbn [equs] in H; try (apply IH; exact H); [destruct H|].
+    destruct H as [H|H]; [inversion H; subst; exact Hnn|apply IH; exact H]. }
+  assert (Hac : graph_has_cycle (build_graph raw) = Some false) by (apply (graph_ranked cfg ev rkN Hev_inj Hev_np Hrk)).
+  destruct (expand_expressions_succeeds raw Hac) as [res Hres].
+  assert (Htabs : forall j, 0 <= j -> (j < n \/ j = 0) -> tables_ok spell (mconf_of cfg) ev ls raw labt (Z.of_N (c_size cfg)) j).
+  { intros j Hj0 Hj. apply (tables_hold spell cfg ev ls j Hsp'). intros id a Ha.
+    pose proof (lab_pairs_range spell _ _ _ _ Ha) as Hr. fold n in Hr. lia. }
+  rewrite <- compile_essential, Hess. unfold compile. rewrite Hv. cbn [negb]. rewrite Hsym.
+  cbn [c_values c_labels c_startexpr]. rewrite Hac.
+  assert (Hlenraw : (length ev <= length raw)%nat) by (unfold raw, raw_table, equ_entries; rewrite app_length, map_length; lia).
+  rewrite (r2_assertions_zero spell cfg ev ls raw labt se org its es Hrd (Htabs 0 ltac:(lia) (or_intror eq_refl)) Henv Hlenraw Hz 0).
+  reflexivity.
 Qed.
 End EquCompile.
